@@ -119,6 +119,44 @@ def counting_gen(n, ret=None, fail_at=None):
   return ret
 
 
+# Sources of the bounded-iteration scenario: YIELDED[key] = number of elements the producer
+# has taken from the generator so far (client and server share the process).
+YIELDED = {}
+
+
+def tracked_gen(key, n):
+  for i in range(n):
+    YIELDED[key] = i + 1
+    yield i
+
+
+# Callables of the liveness scenario: they take REAL seconds (the server keeps the real clock).
+def paced_gen(n, real_dt):
+  import time
+  for i in range(n):
+    time.sleep(real_dt)
+    yield i
+
+
+def sleep_then(real_secs, value):
+  import time
+  time.sleep(real_secs)
+  return value
+
+
+class SlowBox:
+  """Stateful object whose method takes a while."""
+
+  def __init__(self, val=0):
+    self.val = val
+
+  def bump(self, k=1, real_secs=0.0):
+    import time
+    time.sleep(real_secs)
+    self.val += k
+    return self.val
+
+
 # ---------------------------------------------------------------------------
 # Expression specs: JSON-able trees interpreted twice (eagerly and lazily).
 # ---------------------------------------------------------------------------
@@ -127,7 +165,9 @@ _CONSTS = [0, 1, 2, 7, -3, 'a', 'bc', (1, 2), None]
 _FNS = ['add', 'cat', 'mk_list', 'mk_dict', 'div', 'boom', 'box_times', 'box_item',
         'box_attr', 'box_call', 'box_child_attr', 'box_fail',
         # values that ARE exception instances (returned, not raised)
-        'mk_exc', 'exc_ctor', 'first_error']
+        'mk_exc', 'exc_ctor', 'first_error',
+        # raised exceptions that carry attributes (code / errno / args of several shapes)
+        'raise_attr', 'raise_attr']
 _EXC_KINDS = ['value', 'key', 'app', 'runtime', 'stop', 'timeout', 'lookup', 'os']
 _EXC_CTORS = ['ValueError', 'KeyError', 'RuntimeError', 'StopIteration', 'LookupError']
 
@@ -155,6 +195,12 @@ def gen_expr(rng: random.Random, depth: int):
   if fn == 'boom':
     return ['call', 'boom', [], {'kind': ['const', rng.choice(['value', 'key', 'type', 'app', 'runtime', 'zero', 'timeout', 'conn'])],
                                  'msg': ['const', rng.choice(['bad', 'x y', ''])]}, False]
+  if fn == 'raise_attr':
+    kind = rng.choice(ATTR_EXC_KINDS)
+    return ['call', 'raise_attr', [], {'kind': ['const', kind],
+                                       'msg': ['const', rng.choice(['bad', 'x y', 'quota 7'])],
+                                       'code': ['const', rng.choice(ATTR_CODES)],
+                                       'doc': ['const', rng.choice(MALFORMED_DOCS)]}, False]
   if fn == 'mk_exc':
     return ['call', 'mk_exc', [], {'kind': ['const', rng.choice(_EXC_KINDS)],
                                    'msg': ['const', rng.choice(['bad', 'x y', 'k'])]}, cache]
@@ -195,6 +241,7 @@ _TABLE = {'add': add, 'cat': cat, 'mk_list': mk_list, 'mk_dict': mk_dict,
 
 
 def _late_table():
+  _TABLE.setdefault('raise_attr', raise_attr)
   _TABLE.setdefault('mk_exc', mk_exc)
   _TABLE.setdefault('first_error', first_error)
 
@@ -319,6 +366,108 @@ def norm(v):
   if isinstance(v, dict):
     return {k: norm(x) for k, x in v.items()}
   return v
+
+
+# ---------------------------------------------------------------------------
+# RAISED exceptions that carry attributes: a numeric / symbolic `code`, an `errno`,
+# args of several shapes; user classes and stdlib classes. All of them survive a
+# pickle round trip with type, str() and attributes intact.
+# ---------------------------------------------------------------------------
+
+ATTR_CODES = [0, 1, 2, 3, 4, 5, 6, 'x', 4, 4.0, None]
+ATTR_EXC_KINDS = ['init_args', 'init_attr', 'class_attr', 'set_attr', 'set_attr_app', 'oserror',
+                  'args_none', 'args_code_only', 'args_nested', 'args_dict', 'code_method',
+                  'parse_xml', 'parse_xml', 'expat', 'json', 'unicode', 'calledprocess']
+# malformed documents: expat error codes 4, 3, 3, 7, 9, 2, 8, 4, 11
+MALFORMED_DOCS = ['<a>&</a>', '', '<a>', '<a></b>', '<a/><b/>', 'x', '<a b="1" b="2"/>',
+                  '<a>\x01</a>', '<a>&nope;</a>']
+
+
+class CodedArgsError(Exception):
+  """code is a constructor argument AND kept in args: QuotaError('quota exceeded', 4)."""
+
+  def __init__(self, msg, code):
+    super().__init__(msg, code)
+    self.code = code
+
+
+class CodedAttrError(Exception):
+  """code is an optional constructor argument that is not part of args."""
+
+  def __init__(self, msg, code=0):
+    super().__init__(msg)
+    self.code = code
+
+
+class ClassCode4Error(Exception):
+  code = 4          # a class-level constant, like an error catalogue entry
+
+
+class ClassCode2Error(Exception):
+  code = 2
+
+
+class CodeMethodError(Exception):
+  """`code` is a METHOD (the gRPC convention), never equal to a number."""
+
+  def __init__(self, msg, code=0):
+    super().__init__(msg)
+    self._code = code
+
+  def code(self):
+    return self._code
+
+
+def raise_attr(kind='init_args', msg='bad', code=4, doc='<a>&</a>'):
+  """Raises an exception carrying attributes; what is raised is a function of the arguments only."""
+  if kind == 'init_args':
+    raise CodedArgsError(msg, code)
+  if kind == 'init_attr':
+    raise CodedAttrError(msg, code)
+  if kind == 'class_attr':
+    raise (ClassCode4Error if code == 4 else ClassCode2Error)(msg)
+  if kind in ('set_attr', 'set_attr_app'):
+    e = ValueError(msg) if kind == 'set_attr' else AppError(msg)
+    e.code = code
+    e.detail = {'msg': msg}
+    raise e
+  if kind == 'oserror':
+    raise OSError(code if isinstance(code, int) else 5, msg)   # .errno, no .code
+  if kind == 'args_none':
+    e = AppError()
+    e.code = code
+    raise e
+  if kind == 'args_code_only':
+    e = AppError(code)
+    e.code = code
+    raise e
+  if kind == 'args_nested':
+    e = AppError((msg, code))
+    e.code = code
+    raise e
+  if kind == 'args_dict':
+    e = AppError(msg, {'code': code})
+    e.code = code
+    raise e
+  if kind == 'code_method':
+    raise CodeMethodError(msg, code)
+  if kind == 'parse_xml':
+    import xml.etree.ElementTree as ET
+    return ET.fromstring(doc).tag
+  if kind == 'expat':
+    import xml.parsers.expat as expat
+    p = expat.ParserCreate()
+    p.Parse(doc, True)
+    return 'parsed'
+  if kind == 'json':
+    import json
+    return json.loads(doc)
+  if kind == 'unicode':
+    return (msg.encode() + b'\xff').decode('utf8')
+  if kind == 'calledprocess':
+    import subprocess
+    raise subprocess.CalledProcessError(code if isinstance(code, int) else 1, msg)
+  raise ValueError(kind)
 
 
 # An exception class whose __init__ signature differs from its args (observation only).
